@@ -147,6 +147,7 @@ func checkC01(c *Ctx) {
 		checkIdentifierHeads(c, "C01.R20.identifier-heads", ev)
 		checkExtraSchemaImports(c, "C01.R16.extra-schema-imports", gen)
 		checkReceiverArgs(c, "C01.R20.receiver-args", ev)
+		checkParamMethodNames(c, "C01.R12.param-method-names", ev)
 		checkAliasQualifiers(c, "C01.R12.alias-qualifiers", ev)
 		checkDeclaredUsed(c, "C01.R10.declared-used", ev)
 		checkSiblingFlagDefinitions(c, "C01.R10.sibling-flags", gen, "GenItems", "NeedsIndex", 3)
